@@ -100,6 +100,58 @@ def run_design_and_deviations(gd, base, opendevs, timeout=1500):
         return a.result(), b.result()
 
 
+def tla_stmt(s):
+    return '[k |-> "%s", tgt |-> %d, sp |-> %d, pos |-> "%s", r |-> "%s"]' % (s["k"], s["tgt"], s["sp"], s["pos"], s["r"])
+
+
+def tla_body(body):
+    return "<< " + ", ".join("<< " + ", ".join(tla_stmt(s) for s in b) + " >>" for b in body) + " >>"
+
+
+def sampled_cases(gd, tag, nf, bodies_expr, orders_expr, layout_expr, cmd, cwds, repeat, devs, cmds):
+    """Larger projects than the exhaustive configurations reach, sampled by TLC itself
+    (Randomization!RandomSubset inside bodies_expr / orders_expr): the design is checked on the
+    sample (all invariants), and the run with the open deviations gets the very same sample,
+    written out as explicit sets.  -> ({case key: case}, {case key: [deviation cases]})"""
+    def cfg(name, inv):
+        with open(os.path.join(gd, name + ".cfg"), "w") as f:
+            f.write("CONSTANTS\n  Deviations <- GenDevs\n  NF = %d\n  Bodies <- SimBodies\n  Layouts <- LaySim\n"
+                    "  Cmds <- %s\n  Cwds <- %s\n  Orders <- SimOrders\n  Pres <- PreNone\n  Repeat = %d\n"
+                    "  EmitOn = TRUE\nINIT Init\nNEXT Next\nCHECK_DEADLOCK FALSE\nINVARIANTS %s\n"
+                    % (nf, cmd, cwds, repeat, inv))
+
+    mod = "MCS_%s" % tag
+    with open(os.path.join(gd, mod + ".tla"), "w") as f:
+        f.write("---- MODULE %s ----\nEXTENDS MC_Build, Randomization\nGenDevs == {}\nSimBodies == %s\nSimOrders == %s\n"
+                "LaySim == %s\n====\n" % (mod, bodies_expr, orders_expr, layout_expr))
+    cfg("G_%s_sim_design" % tag, INVARIANTS)
+    r = C.run_tlc(mod, "G_%s_sim_design" % tag, workers=6, gendir=gd, timeout=3000, heap="6g")
+    cmds.append(r.cmd)
+    if r.violation:
+        raise C.ToolError("Build.tla (sampled larger projects, Deviations = {}): invariant %s violated\n%s"
+                          % (r.violation, r.errtext[:3000]))
+    C.require_tlc_ok(r, mod)
+    cases = {}
+    for c in r.replays:
+        cases.setdefault(case_key(c), c)
+    C.log("[%s] sampled larger projects: %d cases, %d states, %.0fs" % (tag, len(cases), r.distinct, r.wall))
+    devcases = {}
+    if devs and cases:
+        bodies = sorted({tla_body(c["body"]) for c in cases.values()})
+        orders = sorted({"<< " + ", ".join(map(str, c["ord"])) + " >>" for c in cases.values()})
+        mod2 = "MCD_%s" % tag
+        with open(os.path.join(gd, mod2 + ".tla"), "w") as f:
+            f.write("---- MODULE %s ----\nEXTENDS MC_Build\nGenDevs == %s\nSimBodies == {\n%s }\nSimOrders == { %s }\nLaySim == %s\n====\n"
+                    % (mod2, "{" + ", ".join('"%s"' % d for d in sorted(devs)) + "}", ",\n".join(bodies), ", ".join(orders), layout_expr))
+        cfg("G_%s_sim_dev" % tag, "Emit")
+        r2 = C.run_tlc(mod2, "G_%s_sim_dev" % tag, workers=6, gendir=gd, timeout=3000, heap="6g")
+        cmds.append(r2.cmd)
+        C.require_tlc_ok(r2, mod2)
+        for c in r2.replays:
+            devcases.setdefault(case_key(c), []).append(c)
+    return cases, devcases, r.distinct, r.generated
+
+
 def case_key(case):
     return json.dumps([case["lay"], case["body"], case["cmd"], case["cwd"], case["ord"], case["pre"]],
                       sort_keys=True)
